@@ -126,13 +126,25 @@ func (s *Service) Handle(ctx context.Context, conn net.Conn) error {
 	done := make(chan struct{})
 	defer close(done)
 
+	// mails received on this connection are handed to this connection's own pump: a
+	// per-connection handler instead of the channel shared through DefaultServeMux
+	receive := make(chan Message)
+	srv := *s.srv
+	srv.Handler = HandlerFunc(func(msg Message) error {
+		select {
+		case receive <- msg:
+		case <-done:
+		}
+		return nil
+	})
+
 	// Wait for a message and send it into the eventbus
 	go func() {
 		for {
 			select {
 			case <-done:
 				return
-			case message := <-s.receiveChan:
+			case message := <-receive:
 				header := []event.Option{}
 
 				for key, values := range message.Header {
@@ -171,7 +183,7 @@ func (s *Service) Handle(ctx context.Context, conn net.Conn) error {
 	}()
 
 	//Create new smtp server connection
-	c := s.srv.newConn(conn, rcvLine)
+	c := srv.newConn(conn, rcvLine)
 	// Start server loop
 	c.serve()
 	return nil
